@@ -230,6 +230,14 @@ def real_headers(rng, names, edges, funcs_only, force_hidden=False, force_shared
                         used.append("%s_TT%d" % (U, n))
                     else:
                         used.append("%s_T%d" % (U, n))
+            # a typedef of a class of a library that depends on this one, declared in that library's forward header and merely
+            # mentioned here: it must not make this library depend on that one
+            for w in sorted(a for (a, b) in edges if b == u):
+                if acyclic and rng.chance(1, 3):
+                    W = names[w].capitalize()
+                    files["%s/%s_fwd.h" % (names[w], names[w])] = "#ifndef %s_FWD_H\n#define %s_FWD_H\nclass %s_K0;\ntypedef %s_K0 %s_K0Alias;\n#endif\n" % (W.upper(), W.upper(), W, W, W)
+                    out.insert(2, '#include "%s_fwd.h"' % names[w])
+                    used.append("%s_K0Alias" % W)
             # a publish block that ends: a file-scope "__published:" would stay in effect for whatever includes this header
             out += ["__begin_publish", "int %s_function(int a);" % names[u]] + ["%s *use_%s(int a);" % (t, t.lower()) for t in used] + ["__end_publish"]
         out.append("#endif")
@@ -411,11 +419,11 @@ def model_graph(dbs):
         if lib and mod.decode() == MODULE:
             libs.add(lib.decode())      # published constants are added to the module by the library's BuildInstants
     edges = set()
-    # "... or are typedefs of its classes": every top-level typedef of the module (the generated library code adds each one
-    # to the module as a name of the class, global or not), followed to the end of the chain
+    # "... or are typedefs of its classes": every top-level typedef the library declares (interrogate marks those global; a
+    # typedef that another library's header declares and this one merely mentions is not), followed to the end of the chain
     for i, t in mc.recs["types"].items():
         lib, mod = mc.owner[("types", i)]
-        if not (t["flags"] & F.TF_TYPEDEF) or (t["flags"] & F.TF_NESTED) or mod.decode() != MODULE or not lib:
+        if not (t["flags"] & F.TF_TYPEDEF) or not (t["flags"] & F.TF_GLOBAL) or (t["flags"] & F.TF_NESTED) or mod.decode() != MODULE or not lib:
             continue
         b, hops = t["wrapped_type"], 0
         while b in mc.recs["types"] and mc.recs["types"][b]["flags"] & F.TF_TYPEDEF and hops < 100:
